@@ -1,17 +1,21 @@
 ----------------------------- MODULE MC_SourceKind -----------------------------
-(* The complete finite product: source kind x BOM x override_encoding x transport_encoding     *)
-(* (every combination in which an encoding is declared as certain, and every text kind with    *)
-(* and without encoding keywords); each row is exported and opened for real.                   *)
+(* The complete finite product: source kind (plain, library objects, all duck-typed attribute  *)
+(* combinations) x BOM x override_encoding x transport_encoding x state at hand-over; each row  *)
+(* is exported with the code-faithful and the intended outcome, and opened for real.           *)
 EXTENDS SourceKind, TLC, Json
-CONSTANTS Boms, Labels, Export
+CONSTANTS Boms, Labels, Export, CheckProperty
 VARIABLES row
-None == [k |-> "", bom |-> "", ov |-> "", tr |-> ""]
+None == [k |-> K("", "", FALSE, ""), bom |-> "", ov |-> "", tr |-> "", pos |-> ""]
 Init == row = None
 Next == /\ row = None
-        /\ \E k \in Kinds, bom \in Boms \cup {"none"}, ov \in Labels \cup {"none"}, tr \in Labels \cup {"none"} :
-              /\ Declared(k, bom, ov, tr)
-              /\ row' = [k |-> k, bom |-> bom, ov |-> ov, tr |-> tr]
-ThmKindIndependent == row # None => KindIndependent(row.bom, row.ov, row.tr)
+        /\ \E k \in Kinds, bom \in Boms \cup {"none"}, ov \in Labels \cup {"none"}, tr \in Labels \cup {"none"},
+              pos \in {"start", "mid", "end", "closed"} :
+              /\ Declared(k, bom, ov, tr, pos)
+              /\ row' = [k |-> k, bom |-> bom, ov |-> ov, tr |-> tr, pos |-> pos]
+ThmKindIndependent == (CheckProperty /\ row # None) => KindIndependent(row.bom, row.ov, row.tr, row.pos, KnownDefects)
+ThmFromCurrent == (CheckProperty /\ row # None) => FromCurrent(row.k, row.bom, row.ov, row.tr, row.pos, KnownDefects)
 ThmExport == (Export /\ row # None) =>
-    PrintT(ToJson([k |-> row.k, bom |-> row.bom, ov |-> row.ov, tr |-> row.tr, exp |-> Open(row.k, row.bom, row.ov, row.tr)]))
+    PrintT(ToJson([k |-> row.k, bom |-> row.bom, ov |-> row.ov, tr |-> row.tr, pos |-> row.pos,
+                   exp |-> Open(row.k, row.bom, row.ov, row.tr, row.pos, KnownDefects),
+                   int |-> Open(row.k, row.bom, row.ov, row.tr, row.pos, {})]))
 =============================================================================
